@@ -112,3 +112,26 @@ void allocmon_reset(void)
 	allocmon_live_bytes = allocmon_peak_bytes = 0;
 	allocmon_fail_at = 0;
 }
+
+/* stdio step counter: fread/fseek/ftell issued by library code (FILE-backed stream kinds) are counted like the
+ * callback kinds' read/skip invocations, so that non-termination there is decided by a deterministic budget too. */
+size_t __real_fread(void *, size_t, size_t, FILE *);
+int __real_fseek(FILE *, long, int);
+long __real_ftell(FILE *);
+unsigned long allocmon_file_reads, allocmon_file_seeks;
+void (*allocmon_step_hook)(void);
+
+size_t __wrap_fread(void *p, size_t a, size_t b, FILE *f)
+{
+	if (allocmon_active) { ++allocmon_file_reads; if (allocmon_step_hook) allocmon_step_hook(); }
+	return __real_fread(p, a, b, f);
+}
+int __wrap_fseek(FILE *f, long o, int w)
+{
+	if (allocmon_active) { ++allocmon_file_seeks; if (allocmon_step_hook) allocmon_step_hook(); }
+	return __real_fseek(f, o, w);
+}
+long __wrap_ftell(FILE *f)
+{
+	return __real_ftell(f);
+}
